@@ -42,17 +42,15 @@ theorem C08_integer_forms (O : Oracle) (i : Int) (n : Nat) :
 (repair 22e9ce8; they used to be bare, i.e. invalid JSON); finite ones as bare literals -/
 theorem C08_float_forms (O : Oracle) (b : Nat) :
     (finite64 b = true → encodeScalar O .float64 (.f64 b) = .ok (.bare (O.fmtF64 b))) ∧
-    (b < 2 ^ 64 → finite64 b = false → ∃ s, encodeScalar O .float64 (.f64 b) = .ok (.quoted s) ∧
+    (finite64 b = false → ∃ s, encodeScalar O .float64 (.f64 b) = .ok (.quoted s) ∧
       (s = ascii "NaN" ∨ s = ascii "Infinity" ∨ s = ascii "-Infinity")) := by
   constructor
   · intro h
     simp only [encodeScalar, finite64_exp b h, nonFinite_finite]
-  · intro hb h
+  · intro h
     have hexp : decide (b / 2 ^ 52 % 2048 = 2047) = true := by
-      simp only [finite64, Bool.and_eq_false_iff, decide_eq_false_iff_not, bne_eq_false_iff_eq] at h
-      rcases h with h | h
-      · omega
-      · simp [h]
+      simp only [finite64, bne_eq_false_iff_eq] at h
+      simp [h]
     simp only [encodeScalar, nonFinite, hexp, if_true]
     split
     · split
